@@ -206,4 +206,69 @@ theorem parse_I_step (h : IterG g I Z R b t0 rest nI nZ nR) (s : List Char) (n :
 
 end
 
+/-! ### discharging the pre-parse hypotheses: an input without whitespace characters -/
+
+theorem skipWhite_none (w s : List Char) (h : ∀ c ∈ s, mem c w = false) (e : Nat) : skipWhite w s e = e := by
+  unfold skipWhite
+  have : (s.drop e).takeWhile (mem · w) = [] := by
+    have hd : ∀ c ∈ s.drop e, mem c w = false := fun c hc => h c (List.mem_of_mem_drop hc)
+    cases hl : s.drop e with
+    | nil => rfl
+    | cons x xs =>
+      have := hd x (by rw [hl]; simp)
+      simp [List.takeWhile, this]
+  rw [this]; rfl
+
+theorem parseStep_callPre_irrel (g : Grammar) (s : List Char) (p : P) (id : Nat) (nd : Node) (loc : Nat) (a : Bool)
+    (hg : g[id]? = some nd) (hpre : preParse p nd s loc = .at loc) :
+    parseStep g s p id loc a false = parseStep g s p id loc a true := by
+  unfold parseStep
+  simp only [hg]
+  cases nd.callPre <;> simp [hpre]
+
+theorem lit1Impl_le {c : Char} {s : List Char} {loc e : Nat} {ts : List Tok} (h : lit1Impl c s loc = .ok e ts) :
+    e ≤ s.length := by
+  unfold lit1Impl at h
+  cases hs : s[loc]? with
+  | none => rw [hs] at h; simp at h
+  | some ch =>
+    rw [hs] at h
+    have hlt : loc < s.length := by
+      rcases List.getElem?_eq_some_iff.mp hs with ⟨hl, _⟩
+      exact hl
+    simp only at h
+    split at h <;> simp at h
+    omega
+
+theorem parse_lit1_end_le (g : Grammar) (s : List Char) (f t : Nat) (nd : Node) (ch : Char)
+    (hg : g[t]? = some nd) (hk : nd.kind = .lit1 ch) :
+    ∀ loc a c e ts, parse g s (f + 1) t loc a c = .ok e ts → e ≤ s.length := by
+  intro loc a c e ts h
+  simp only [parse] at h
+  unfold parseStep at h
+  rw [hg] at h
+  simp only at h
+  split at h
+  · rename_i o hpre; subst h
+    split at hpre
+    · have := preParse_abort (parse g s f) nd s loc _ hpre; simp [Out.isOk] at this
+    · simp at hpre
+  · rename_i pre hpre
+    have hpi : parseImpl g (parse g s f) nd s pre a = lit1Impl ch s pre := by
+      unfold parseImpl; rw [hk]
+    rw [hpi] at h
+    cases hi : lit1Impl ch s pre with
+    | ok e' ts' =>
+      rw [hi] at h
+      simp only at h
+      have he := lit1Impl_le hi
+      split at h
+      · have := runActs_end _ _ _ _ _ _ h; omega
+      · simp at h; omega
+    | fail c' l => rw [hi] at h; simp at h
+    | idx =>
+      rw [hi] at h
+      by_cases hc : (nd.mayIdx || decide (pre ≥ s.length)) = true <;> simp [hc] at h
+    | hang => rw [hi] at h; simp at h
+
 end PP.Parse
